@@ -405,7 +405,7 @@ def gen_subject(rng, tier="quick"):
 
 def features_of(world, stats):
     f = []
-    if world.get("dask") and stats.get("pool_tasks", 0) > 1:
+    if world.get("dask") and stats.get("pool_tasks", 0) >= 1:
         f.append("dask")
         if world.get("pool", 1) > 1 and stats.get("switches", 0) > 0:
             f.append("interleaving")
